@@ -1226,7 +1226,7 @@ pub fn base_envx(ret: Option<Ty>) -> EnvX {
 }
 
 const MEMBER_NAMES: &[&str] = &[
-    "x", "y", "z", "w", "r", "xx", "xy", "yx", "zyx", "xyz", "xyzw", "rgba", "xr", "xyy", "rrrrr", "xyzwx", "q", "v", "a", "s", "m", "k", "nope",
+    "x", "y", "z", "w", "r", "xx", "xy", "yx", "zyx", "xyz", "xyzw", "rgba", "xr", "xyy", "rrrr", "rrrrr", "xyzwx", "q", "v", "a", "s", "m", "k", "nope",
     "_m00", "_11", "_m00_m11", "_11_22", "_11_m00", "_m00_m00", "_m02", "_m20", "_21", "_32", "_m1", "_", "_m", "_m00_m01_m10_m11_m00", "_m00_m01_m10_m11",
     "_m0", "_00", "_m11_m10",
 ];
